@@ -9,6 +9,7 @@
 import Lemmas.Adj
 import Lemmas.BestPathHist
 import Lemmas.WorldAdj
+import Lemmas.WorldHeld
 namespace C02
 open BestPath World
 
@@ -73,6 +74,25 @@ theorem locrib_within_adjin (g : Global) (cfgs : List PeerCfg)
   · obtain ⟨a, ha, h1, h2, h3⟩ := (hf.adj ps hps).2 e he r hre hsrc
     exact Or.inr ⟨ps, hps, hsrc, a, ha, h1, h2.trans (hp.trans hep), h3⟩
 
+/-- **World level: nothing accepted is lost.** Under the same quantifiers: every non-rejected
+    Adj-RIB-In entry of every configured peer is represented in the Loc-RIB of its prefix by a
+    path with that peer as source and the same path-id — across replacements, other peers'
+    and local updates of the same destination, session ends and deletions of OTHER peers. With
+    `locrib_within_adjin`: the (source, path-id) keys of a destination's Loc-RIB are exactly the
+    accepted Adj-RIB-In keys of the configured peers plus the locally injected routes. -/
+theorem adjin_within_locrib (g : Global) (cfgs : List PeerCfg)
+    (haddr : cfgs.Pairwise (fun a b => a.addr ≠ b.addr))
+    (hidx : cfgs.Pairwise (fun a b => a.idx ≠ b.idx)) (ops : List WOp) :
+    let w := ops.foldl step (init g cfgs)
+    ∀ ps ∈ w.peers, ∀ a ∈ ps.adj.entries, a.rejected = false →
+      ∃ r ∈ w.ribOf a.r.pfx, r.src = ps.cfg.srcInfo w.g ∧ r.pathId = a.r.pathId := by
+  intro w ps hps a ha hr
+  have ht := run_total (init g cfgs) ops (init_total g cfgs haddr hidx)
+  obtain ⟨e, he, hep, r, hre, hs, hk⟩ := ht.held ps hps a ha hr
+  refine ⟨r, ?_, hs, hk⟩
+  rw [← hep, ribOf_of_mem w ht.full.inv.keys e he]
+  exact hre
+
 /-! ### non-vacuity -/
 
 def rt (pfx pid marker : Nat) : Cand := { (default : Cand) with pfx := pfx, pathId := pid, marker := marker }
@@ -81,5 +101,22 @@ example : ((([AdjOp.ann (rt 1 0 7) false, .ann (rt 1 0 8) true, .ann (rt 2 0 9) 
     adjStep {}).entries.map (fun e => (e.r.marker, e.rejected))) = [(8, true)] := by decide
 
 example : (([AdjOp.ann (rt 1 0 7) false, .ann (rt 1 0 8) true]).foldl adjStep {}).accepted = 0 := by decide
+
+/-- a world history: peer 1's route is replaced by a loop-rejected one (own AS in the path) and
+    leaves the Loc-RIB; peer 0's route and the local route stay; then peer 0 is deleted -/
+def g0 : Global := ⟨65000, 1⟩
+def p0 : PeerCfg := { idx := 0, kind := .ebgp, as := 65001, rid := 10, addr := 100 }
+def p1 : PeerCfg := { idx := 1, kind := .ebgp, as := 65002, rid := 11, addr := 101 }
+def wh : List WOp :=
+  [.up 0, .up 1,
+   .ann 0 { (default : Cand) with pfx := 7, marker := 1, origin := some 0, segs := [⟨2, [65001]⟩] },
+   .ann 1 { (default : Cand) with pfx := 7, marker := 2, origin := some 0, segs := [⟨2, [65002]⟩] },
+   .localAdd { (default : Cand) with pfx := 7, marker := 3, origin := some 0 },
+   .ann 1 { (default : Cand) with pfx := 7, marker := 4, origin := some 0, segs := [⟨2, [65002, 65000]⟩] }]
+
+example : ((wh.foldl step (init g0 [p0, p1])).ribOf 7).map (·.marker) = [3, 1] := by decide
+example : ((wh.foldl step (init g0 [p0, p1])).peers.map (fun ps => ps.adj.entries.map (fun e => (e.r.marker, e.rejected))))
+    = [[(1, false)], [(4, true)]] := by decide
+example : (((wh ++ [WOp.del 0]).foldl step (init g0 [p0, p1])).ribOf 7).map (·.marker) = [3] := by decide
 
 end C02
